@@ -10,6 +10,10 @@ Translated (property C06):
                             macho_parse_file                               -> macho_cmd_ok_1/_2
                             the two guards of the fat-arch loop of
                             macho_parse_fat_file                           -> macho_fat_arch_ok
+  modules/pe/pe.c           pe_parse_exports: the counts (number_of_exports, number_of_names), the guards of the
+                            three parallel tables (ordinals, function_addrs, names) and, for every indexed
+                            access to them, the bound its index is known to be below at that point
+                                                                           -> exp_* (see _export_tables)
   modules/pe/pe_utils.c     the condition of the section loop of pe_rva_to_offset -> pe_rva_loop_cond
 plus the constants the hand model Model/PeRva.v needs (evaluated by the C compiler).
 
@@ -275,7 +279,7 @@ def parse_stmts(src, what):
 
 
 SIZEOF_TYPES = ["IMAGE_SECTION_HEADER", "IMAGE_DATA_DIRECTORY", "IMAGE_NT_HEADERS32", "yr_load_command_t", "yr_mach_header_64_t",
-                "yr_mach_header_32_t", "yr_fat_header_t", "yr_fat_arch_64_t", "yr_fat_arch_32_t", "dex_header_t"]
+                "yr_mach_header_32_t", "yr_fat_header_t", "yr_fat_arch_64_t", "yr_fat_arch_32_t", "dex_header_t", "WORD", "DWORD"]
 CONST_MACROS = ["MAX_PE_SECTIONS", "PE_PAGE_SIZE", "PE_SECTOR_SIZE"]
 
 
@@ -344,6 +348,175 @@ def _decl_type(body, name, what):
     if not m:
         raise GenError("translator cannot parse %s: no declaration of %s" % (what, name))
     return m.group(1)
+
+
+# ------------------------------------------------------------------ pe_parse_exports: guards vs. indexed accesses
+def _split_and(cond):
+    """top-level conjuncts of a C condition text"""
+    parts, depth, cur, i = [], 0, "", 0
+    while i < len(cond):
+        c = cond[i]
+        if c in "([":
+            depth += 1
+        elif c in ")]":
+            depth -= 1
+        if depth == 0 and cond.startswith("&&", i):
+            parts.append(cur.strip())
+            cur = ""
+            i += 2
+            continue
+        if depth == 0 and cond.startswith("||", i):
+            raise GenError("translator cannot parse pe_parse_exports: `||` in the look-up condition")
+        cur += c
+        i += 1
+    parts.append(cur.strip())
+    return parts
+
+
+def _paren_end(txt, i):
+    """txt[i] == '(' -> index after the matching ')'"""
+    depth = 0
+    while i < len(txt):
+        depth += {"(": 1, ")": -1}.get(txt[i], 0)
+        i += 1
+        if depth == 0:
+            return i
+    raise GenError("translator cannot parse pe_parse_exports: unbalanced parentheses")
+
+
+def _export_tables(sizeofs, consts, out, src):
+    import genfold
+    what = "pe_parse_exports (modules/pe/pe.c)"
+    ptxt = _read("libyara/modules/pe/pe.c")
+    m = re.search(r"^\s*#\s*define\s+MAX_PE_EXPORTS\s+(\d+)\s*$", ptxt, re.M)
+    if not m:
+        raise GenError("translator cannot parse %s: MAX_PE_EXPORTS is not a plain number" % what)
+    consts = dict(consts, MAX_PE_EXPORTS=int(m.group(1)))
+    _, fbody, _ = function_def(ptxt, "pe_parse_exports", what)
+    fb = strip_comments(fbody)
+    U32 = ("u", 32)
+    for v in ("number_of_exports", "number_of_names"):
+        if _decl_type(fb, v, what).strip() != "uint32_t":
+            raise GenError("translator cannot parse %s: %s is no longer a uint32_t" % (what, v))
+    for v, ty in (("ordinals", "WORD*"), ("function_addrs", "DWORD*"), ("names", "DWORD*")):
+        if re.sub(r"\s+", "", _decl_type(fb, v, what)) != ty:
+            raise GenError("translator cannot parse %s: %s is no longer a %s" % (what, v, ty))
+    ef = struct_fields(_read("libyara/include/yara/pe.h"), "IMAGE_EXPORT_DIRECTORY", what)
+    for f in ("NumberOfFunctions", "NumberOfNames"):
+        if ef.get(f, "").strip() != "DWORD":
+            raise GenError("translator cannot parse %s: IMAGE_EXPORT_DIRECTORY.%s is not a DWORD" % (what, f))
+
+    def assignment(var):
+        ms = list(re.finditer(r"\b%s\s*=\s*([^;]*);" % var, fb))
+        ms = [x for x in ms if not fb[:x.start()].rstrip().endswith(("uint32_t", ","))]
+        if len(ms) != 1:
+            raise GenError("translator cannot parse %s: expected one assignment to %s, found %d" % (what, var, len(ms)))
+        return re.sub(r"\s+", " ", ms[0].group(1)).strip(), ms[0].start()
+
+    env = {"exports->NumberOfFunctions": ("nfun_raw", U32), "exports->NumberOfNames": ("nn_raw", U32),
+           "number_of_exports": ("nexp", U32), "number_of_names": ("nnames", U32), "avail": ("avail", ("u", 64))}
+    em = UEmit(env, sizeofs, consts, what)
+    t_nexp, _ = assignment("number_of_exports")
+    t_nn, _ = assignment("number_of_names")
+    out.append("\n(* ---- pe_parse_exports (modules/pe/pe.c): counts, table guards, index bounds of the indexed accesses *)\n")
+    out.append("Definition MAX_PE_EXPORTS : Z := %d.\n" % consts["MAX_PE_EXPORTS"])
+    out.append("(* number_of_exports = %s *)\nDefinition exp_number_of_exports (nfun_raw : Z) : Z :=\n  %s.\n"
+               % (t_nexp, em.val(parse_expr(t_nexp, what))[0]))
+    out.append("(* number_of_names = %s *)\nDefinition exp_number_of_names (nexp nn_raw : Z) : Z :=\n  %s.\n"
+               % (t_nn, em.val(parse_expr(t_nn, what))[0]))
+    src["exp_number_of_exports"], src["exp_number_of_names"] = t_nexp, t_nn
+    src["MAX_PE_EXPORTS"] = consts["MAX_PE_EXPORTS"]
+    # guards.  available_space(pe, T) is the number of bytes from T to the end of the data (0 when T is outside): `avail`
+    guards = {}
+    for tbl in ("ordinals", "function_addrs"):
+        ms = list(re.finditer(r"if\s*\(\s*(available_space\s*\(\s*pe\s*,\s*%s\s*\)\s*<[^;{}]*?)\)\s*return\s*;" % tbl, fb))
+        if len(ms) != 1:
+            raise GenError("translator cannot parse %s: expected one `if (available_space(pe, %s) < ...) return;`, found %d" % (what, tbl, len(ms)))
+        g = re.sub(r"\s+", " ", ms[0].group(1)).strip()
+        guards[tbl] = (re.sub(r"available_space\s*\(\s*pe\s*,\s*%s\s*\)" % tbl, "avail", g), ms[0].start())
+    ms = list(re.finditer(r"if\s*\(\s*([^;{}]*?NumberOfNames[^;{}]*?>\s*pe->data_size\s*-\s*offset)\s*\)\s*return\s*;", fb))
+    if len(ms) != 1:
+        raise GenError("translator cannot parse %s: expected one `if (... NumberOfNames ... > pe->data_size - offset) return;`, found %d" % (what, len(ms)))
+    g = re.sub(r"\s+", " ", ms[0].group(1)).strip()
+    guards["names"] = (re.sub(r"pe->data_size\s*-\s*offset", "avail", g), ms[0].start())
+    if not re.search(r"names\s*=\s*\(\s*DWORD\s*\*\s*\)\s*\(\s*pe->data\s*\+\s*offset\s*\)\s*;", fb[ms[0].end():ms[0].end() + 200]):
+        raise GenError("translator cannot parse %s: names is no longer pe->data + offset right after its guard" % what)
+    for tbl, nm in (("ordinals", "ordinals"), ("function_addrs", "functions"), ("names", "names")):
+        out.append("(* rejected when: %s   [avail = bytes from %s to the end of the data] *)\n"
+                   "Definition exp_%s_rejects (avail nexp nnames nn_raw : Z) : bool :=\n  %s.\n"
+                   % (guards[tbl][0], tbl, nm, em.cond(parse_expr(guards[tbl][0], what))))
+        src["exp_%s_rejects" % nm] = guards[tbl][0]
+    # indexed accesses: all of them must be inside the export loop, after the guards
+    lm = list(re.finditer(r"for\s*\(\s*i\s*=\s*0\s*;\s*i\s*<\s*(\w+)\s*;\s*i\+\+\s*\)\s*\{", fb))
+    if len(lm) != 1:
+        raise GenError("translator cannot parse %s: expected one `for (i = 0; i < N; i++)` loop, found %d" % (what, len(lm)))
+    ob = lm[0].end() - 1
+    oe = genfold.match_brace(fb, ob)
+    obody = fb[ob + 1:oe - 1]
+    if lm[0].start() < max(p for _, p in guards.values()):
+        raise GenError("translator cannot parse %s: the export loop precedes a table guard" % what)
+    for tbl in ("ordinals", "function_addrs", "names"):
+        if re.search(r"\b%s\s*\[" % tbl, fb[:ob]) or re.search(r"\b%s\s*\[" % tbl, fb[oe:]):
+            raise GenError("translator cannot parse %s: %s is indexed outside the export loop" % (what, tbl))
+    known = {"number_of_exports": "nexp", "number_of_names": "nnames"}
+
+    def bound_of(names_):
+        t = None
+        for n in names_:
+            if n not in known:
+                raise GenError("translator cannot parse %s: loop/condition bound `%s` is not one of the export counts" % (what, n))
+            t = known[n] if t is None else "(Z.min %s %s)" % (t, known[n])
+        return t
+    i_bounds = [lm[0].group(1)]
+    jm = list(re.finditer(r"for\s*\(\s*j\s*=\s*0\s*;\s*j\s*<\s*(\w+)\s*;\s*j\+\+\s*\)\s*\{", obody))
+    if len(jm) != 1:
+        raise GenError("translator cannot parse %s: expected one `for (j = 0; j < N; j++)` loop, found %d" % (what, len(jm)))
+    jb = jm[0].end() - 1
+    je = genfold.match_brace(obody, jb)
+    jbody = obody[jb + 1:je - 1]
+    outside_j = obody[:jm[0].start()] + obody[je:]
+    idx = {"ordinals": [], "function_addrs": [], "names": []}
+    for tbl in idx:
+        for a in re.finditer(r"\b%s\s*\[\s*([^\]]*?)\s*\]" % tbl, outside_j):
+            if a.group(1) != "i":
+                raise GenError("translator cannot parse %s: access %s[%s] outside the inner loop" % (what, tbl, a.group(1)))
+            idx[tbl].append(list(i_bounds))
+    # inner loop: `if (COND) {BODY}` ; an access inside COND is only protected by the conjuncts to its left
+    im = re.match(r"\s*if\s*\(", jbody)
+    if not im:
+        raise GenError("translator cannot parse %s: the inner loop does not start with an if" % what)
+    ce = _paren_end(jbody, im.end() - 1)
+    cond = jbody[im.end():ce - 1]
+    rest = jbody[ce:]
+    conj = _split_and(cond)
+    j_bounds = [jm[0].group(1)]
+    left = []
+    for c in conj:
+        for tbl in idx:
+            for a in re.finditer(r"\b%s\s*\[\s*([^\]]*?)\s*\]" % tbl, c):
+                if a.group(1) != "j":
+                    raise GenError("translator cannot parse %s: access %s[%s] in the look-up condition" % (what, tbl, a.group(1)))
+                idx[tbl].append(j_bounds + list(left))
+        b = re.fullmatch(r"j\s*<\s*(\w+)", c)
+        if b:
+            left.append(b.group(1))
+    for tbl in idx:
+        for a in re.finditer(r"\b%s\s*\[\s*([^\]]*?)\s*\]" % tbl, rest):
+            if a.group(1) != "j":
+                raise GenError("translator cannot parse %s: access %s[%s] in the look-up body" % (what, tbl, a.group(1)))
+            idx[tbl].append(j_bounds + list(left))
+    src["exp_accesses"] = {k: v for k, v in idx.items()}
+    for tbl, nm in (("ordinals", "ordinals"), ("function_addrs", "functions"), ("names", "names")):
+        if not idx[tbl]:
+            raise GenError("translator cannot parse %s: no indexed access to %s found" % (what, tbl))
+        # every access must be inside: the weakest protection decides
+        terms = [bound_of(bs) for bs in idx[tbl]]
+        t = terms[0]
+        for x in terms[1:]:
+            t = "(Z.max %s %s)" % (t, x)
+        out.append("(* %s[index] is evaluated at %d place(s); the index is known to be below: %s *)\n"
+                   "Definition exp_%s_index_bound (nexp nnames : Z) : Z := %s.\n"
+                   % (tbl, len(idx[tbl]), " | ".join(" and ".join(bs) for bs in idx[tbl]), nm, t))
 
 
 def translate():
@@ -505,6 +678,7 @@ def translate():
     term = em.cond(parse_expr(ctext, what))
     out.append("(* while (%s) *)\nDefinition pe_rva_loop_cond (i number_of_sections : Z) : bool :=\n  %s.\n" % (ctext, term))
     src["pe_rva_loop_cond"] = ctext
+    _export_tables(sizeofs, consts, out, src)
     src["constants"] = K
     return "".join(out), src
 
